@@ -1074,7 +1074,7 @@ func (i *Interp) rangeIter(fr *frame, x Value, t types.Type) iter {
 	case *MapObj:
 		it := &mapIter{m: x}
 		if x != nil {
-			it.keys = x.snapshotKeys(i.mapReverse)
+			it.keys = x.snapshotKeys(i.nextMapOrder())
 		}
 		return it
 	case string, *SymStr:
